@@ -65,6 +65,12 @@ func c12ScenarioTable() []c12Scenario {
 		methodArgs("/x/{zid}", "GET", false, [][2]string{{"q", "q"}}, fld("zid", "string"), fld("q", "string")))
 	add("path variable without a matching field", H, "ValidateMethodConfig", true,
 		methodArgs("/x/{nope}", "POST", false, nil, fld("zid", "string")))
+	add("path variable spelled as the JSON name of a field whose proto name differs (POST)", H, "ValidateMethodConfig", true,
+		methodArgs("/x/{userId}", "POST", false, nil, fld("user_id", "string")))
+	add("path variable spelled as the JSON name of a field that is carried by the query (GET)", H, "ValidateMethodConfig", true,
+		methodArgs("/x/{userId}", "GET", false, [][2]string{{"user_id", "uid"}}, fld("user_id", "string")))
+	add("path variable spelled as the proto name of a multi-word field (PUT)", H, "ValidateMethodConfig", false,
+		methodArgs("/x/{user_id}", "PUT", false, nil, fld("user_id", "string")))
 	add("path variable bound to a message field", H, "ValidateMethodConfig", true,
 		methodArgs("/x/{zid}", "POST", false, nil, fld("zid", "message").msg(cMessage("Inner"))))
 	add("path variable bound to a repeated field", H, "ValidateMethodConfig", true,
